@@ -12,7 +12,7 @@ from sa.norm import T
 from sa.report import Check
 
 from .c17 import _floor_divs_unsafe
-from .common import callee_name, depends_on, flow_of, g, has_event, has_fact, mutation_sites, op_param, require_guards, rewriter_param, subexprs
+from .common import expand_per_alt, callee_name, depends_on, flow_of, g, has_event, has_fact, mutation_sites, op_param, require_guards, rewriter_param, subexprs
 
 M2S = "snaxc/transforms/memref_to_snax.py"
 ALLOC = "snaxc/transforms/snax_allocate.py"
@@ -78,8 +78,13 @@ def size_deps(repo: Repo, chk: Check) -> None:
                 continue
             ca, cb = (fl.cone(a_, ms, inline=0) for a_ in ms.node.args[:2])
             for x, y in ((ca, cb), (cb, ca)):
-                if depends_on(x, "SubiOp($_, $_)") and depends_on(y, "$st[($d, $k)]") and depends_on(y, "$l.get_step_ops($_, $_, in_bytes=True)"):
-                    lv = [l for l in ms.loops if isinstance(l, ast.For)]
+                lv = [l for l in ms.loops if isinstance(l, ast.For)]
+                # the key of the bound being processed: `(dim, depth)` unpacked, or the loop's key variable as it is
+                same_key = depends_on(y, "$st[($d, $k)]")
+                if not same_key and lv and isinstance(lv[-1].target, ast.Tuple) and isinstance(lv[-1].target.elts[0], ast.Name) and norm.match(
+                        T("$b.items()"), lv[-1].iter) is not None:
+                    same_key = depends_on(y, "$st[$kk]", binds={"kk": lv[-1].target.elts[0].id})
+                if depends_on(x, "SubiOp($_, $_)") and same_key and depends_on(y, "$l.get_step_ops($_, $_, in_bytes=True)"):
                     step_ok = step_ok or (bool(lv) and depends_on(x, "$b.items()"))
                 if depends_on(x, "$l.data.offset") and depends_on(y, "$t.size") and not ms.loops:
                     off = True
@@ -99,6 +104,16 @@ def size_deps(repo: Repo, chk: Check) -> None:
                    "the layout offset (times element size) no longer enters the allocation size")
         # none-layout branch: all shape ops
         prod_ok = depends_on(size, "range(len($s))") and depends_on(size, "MuliOp($_, $_)") and depends_on(size, "$x.pop(0)")
+        if not prod_ok:
+            # the same product written as a loop over the list of per-dimension size ops itself
+            shape_lists = {ast.unparse(a_.node.func.value) for a_ in fl.calls("append") if a_.reachable and any(
+                isinstance(l, ast.For) and norm.contains(a_.expand(l.iter), T("$a.memref.type.shape")) for l in a_.loops)}
+            for ms in fl.calls("MuliOp"):
+                lv = [l for l in ms.loops if isinstance(l, ast.For)]
+                if ms.reachable and lv and isinstance(lv[-1].target, ast.Name) and isinstance(lv[-1].iter, ast.Name) and lv[-1].iter.id in shape_lists \
+                        and any(isinstance(a_, ast.Name) and a_.id == lv[-1].target.id for a_ in ms.node.args[:2]) \
+                        and has_fact(ms, ["isinstance($l, NoneAttr)", "isinstance($l, builtin.NoneAttr)"]):
+                    prod_ok = True
         chk.result(prod_ok, "C11.size-deps", key + ":none-layout-product", s.where(), "without layout the size is the product over all dimensions")
         unsafe = _floor_divs_unsafe(size, s)
         chk.result(not unsafe, "C11.size-deps", key + ":no-floor-division", s.where(), "no floor division under-approximates the size",
@@ -133,9 +148,9 @@ def bump(repo: Repo, chk: Check) -> None:
                 init = s
             else:
                 store = s
-        if isinstance(n, ast.AugAssign) and isinstance(n.op, ast.Add) and depends_on(n.value, "$_ % $_"):
+        if isinstance(n, ast.AugAssign) and isinstance(n.op, ast.Add) and all(depends_on(x_, "$_ % $_") for x_ in expand_per_alt(s, n.value)):
             align = s
-        if isinstance(n, ast.Assign) and isinstance(n.targets[0], ast.Name) and depends_on(n.value, "$_ - $_ % $_") and align is None:
+        if isinstance(n, ast.Assign) and isinstance(n.targets[0], ast.Name) and all(depends_on(x_, "$_ - $_ % $_") for x_ in expand_per_alt(s, n.value)) and align is None:
             align = s
     if init is None:
         raise AnalysisError(f"{f.where}: bump-pointer initialisation not found")
@@ -147,12 +162,28 @@ def bump(repo: Repo, chk: Check) -> None:
     align_if = None
     for n in ast.walk(f.node):
         if isinstance(n, ast.If) and not n.orelse and len(n.body) == 1 and n.body[0] is align.stmt:
-            m = norm.any_match(["$a % $al != 0", "$a % $al"], norm.canon(n.test))
-            if m is not None and isinstance(m["a"], ast.Name):
-                st = n.body[0]
+            # (a hoisted `a % al` is looked through: the test and the increment are read with their locals expanded, per path alternative)
+            st = n.body[0]
+            goods = []
+            m = None
+            for alt in align.state.alts:
+                from sa.flow import expand as _expand
+                env_ = {k: v for k, v in alt.env.items()}
+                # the address variable itself must stay symbolic: it is what is being rounded
+                tgt_ = st.target.id if isinstance(st, ast.AugAssign) and isinstance(st.target, ast.Name) else (
+                    st.targets[0].id if isinstance(st, ast.Assign) and isinstance(st.targets[0], ast.Name) else None)
+                env_.pop(tgt_, None)
+                m = norm.any_match(["$a % $al != 0", "$a % $al"], norm.canon(_expand(n.test, env_)))
+                if m is None or not isinstance(m["a"], ast.Name):
+                    goods.append(False)
+                    continue
+                val_ = _expand(st.value, env_)
                 good = isinstance(st, ast.AugAssign) and isinstance(st.target, ast.Name) and st.target.id == m["a"].id and norm.any_match(
-                    ["$al - $a % $al", "$al - ($a % $al)"], st.value, {"a": m["a"], "al": m["al"]}) is not None
-                good = good or (isinstance(st, ast.Assign) and norm.any_match(["$a + ($al - $a % $al)", "$a + $al - $a % $al"], st.value, {"a": m["a"], "al": m["al"]}) is not None)
+                    ["$al - $a % $al", "$al - ($a % $al)"], val_, {"a": m["a"], "al": m["al"]}) is not None
+                good = good or (isinstance(st, ast.Assign) and norm.any_match(["$a + ($al - $a % $al)", "$a + $al - $a % $al"], val_, {"a": m["a"], "al": m["al"]}) is not None)
+                goods.append(bool(good))
+            if goods:
+                good = all(goods)
                 if good:
                     align_if = n
     chk.result(align_if is not None, "C11.bump", f"{f.key}:round-up", align.where(),
@@ -401,7 +432,7 @@ def dynamic_sizes(repo: Repo, chk: Check) -> None:
         floor=2,
     )
     f, fl = flow_of(repo, chk, M2S, "AllocOpRewrite.match_and_rewrite")
-    apps = [s for s in fl.calls("append") if s.reachable and any(isinstance(l, ast.For) and norm.contains(l.iter, T("$a.memref.type.shape")) for l in s.loops)]
+    apps = [s for s in fl.calls("append") if s.reachable and any(isinstance(l, ast.For) and norm.contains(s.expand(l.iter), T("$a.memref.type.shape")) for l in s.loops)]
     dyn_ok = stat_ok = False
     where = f.where
     for s in apps:
